@@ -662,6 +662,8 @@ ref_walk_block(const uint8_t *b, size_t n, int interval, ref_table_t *t, const c
   ref_buf_free(&key);
   if (rc != 0)
     return rc;
+  if (count == 0 && nrest == 1)
+    ri = 1; /* an empty block carries the single restart point 0 */
   if (ri != nrest)
     REF_TFAIL(t, "%s block: %u restart points declared, %zu are entry starts", what, nrest, ri);
   if (nrestarts_out)
